@@ -8,7 +8,10 @@
             *observed* contents before the call; independent of the model's search order
             and lenient exactly where the property is silent (254 in an ancestry object,
             missing values seen by the biallelic/phase checks, a MAF within 1e-9 of the
-            threshold, zero samples). *)
+            threshold, zero samples).  Sample and variant IDs may repeat (a VCF whose ID column
+            is '.' everywhere): offenders and survivors are identified by position, never by ID.
+   A second case type ([fcase], relation files) is a history on ONE object that read()s real
+   files: read / check / read again / check ...; see the end of this file. *)
 From Coq Require Import QArith PrimFloat Uint63 FloatOps SpecFloat.
 From HV Require Import Prelude GenoTable C13_Model.
 Open Scope Z_scope.
@@ -115,12 +118,21 @@ Fixpoint posZ (x : Z) (l : list Z) : option nat :=
 Definition cell_at (t : gtab) (i j : nat) : option cell :=
   match nth_error (g_rows t) i with Some r => nth_error r j | None => None end.
 
-(* the cell the error names *)
-Definition named_cell (t : gtab) (s v : Z) : option cell :=
-  match posZ s (g_samples t), posZ v (map vid (g_variants t)) with
-  | Some i, Some j => cell_at t i j
-  | _, _ => None
+(* the error names a sample ID and a variant ID: some cell whose row carries that sample ID and
+   whose column carries that variant ID satisfies f (IDs may repeat, so "some") *)
+Fixpoint named_in_row (f : cell -> bool) (v : Z) (vs : list variant) (row : list cell) : bool :=
+  match vs, row with
+  | x :: vs', c :: row' => ((vid x =? v) && f c) || named_in_row f v vs' row'
+  | _, _ => false
   end.
+Fixpoint named_in_rows (f : cell -> bool) (s v : Z) (ss : list Z) (vs : list variant)
+         (rows : list (list cell)) : bool :=
+  match ss, rows with
+  | s' :: ss', r :: rows' => ((s' =? s) && named_in_row f v vs r) || named_in_rows f s v ss' vs rows'
+  | _, _ => false
+  end.
+Definition named_sat (f : cell -> bool) (t : gtab) (s v : Z) : bool :=
+  named_in_rows f s v (g_samples t) (g_variants t) (g_rows t).
 
 (* "must" = the property certainly calls it an offender; "may" = it can be read as one *)
 Definition allele (x : Z) : bool := (0 <=? x) && (x <=? 253).
@@ -164,19 +176,73 @@ Fixpoint forallb2 {A B} (f : A -> B -> bool) (a : list A) (b : list B) : bool :=
 Definition col_exists (f : cell -> bool) (rows : list (list cell)) (j : nat) : bool :=
   existsb (fun r => match nth_error r j with Some x => f x | None => false end) rows.
 
+(* Which positions were kept?  IDs may repeat, so the survivors cannot be looked up by ID:
+   [find_keep] searches a mask under which the surviving items are the kept items of p, in
+   order, such that a certain offender (must) is dropped and an item that cannot be read as
+   offending (not may) is kept.  An item is a whole row (sample ID, calls, ancestry row) resp.
+   a whole column (variant record, calls, ancestry column).  The mask found is then verified
+   field by field ([same_but_rows] / [same_but_cols]) and against the flags. *)
+Fixpoint find_keep {A} (eqb : A -> A -> bool) (ps : list (A * (bool * bool))) (ts : list A)
+  : option (list bool) :=
+  match ps with
+  | [] => match ts with [] => Some [] | _ => None end
+  | (x, (must, may)) :: ps' =>
+      let drop (_ : unit) :=
+        if may then option_map (cons false) (find_keep eqb ps' ts) else None in
+      if must then drop tt else
+      match ts with
+      | y :: ts' =>
+          if eqb x y then
+            match find_keep eqb ps' ts' with
+            | Some k => Some (true :: k)
+            | None => drop tt
+            end
+          else drop tt
+      | [] => drop tt
+      end
+  end.
+
+Definition item_eqb {K} (e : K -> K -> bool) : K * (list cell * list (Z * Z)) -> _ -> bool :=
+  pair_eqb e (pair_eqb (list_eqb cell_eqb) (list_eqb zz_eqb)).
+
+Definition row_items (t : gtab) : list (Z * (list cell * list (Z * Z))) :=
+  map (fun i => (nth i (g_samples t) 0,
+                 (nth i (g_rows t) [], match g_anc t with Some a => nth i a [] | None => [] end)))
+      (seq 0 (length (g_rows t))).
+Definition col_items (t : gtab) : list (variant * (list cell * list (Z * Z))) :=
+  map (fun j => (nth j (g_variants t) dv,
+                 (map (fun r => nth j r (gc 0 0 0)) (g_rows t),
+                  match g_anc t with Some a => map (fun r => nth j r (0, 0)) a | None => [] end)))
+      (seq 0 (length (g_variants t))).
+
+Definition rows_keep (must may : cell -> bool) (p t : gtab) : option (list bool) :=
+  find_keep (item_eqb Z.eqb)
+            (combine (row_items p) (map (fun row => (existsb must row, existsb may row)) (g_rows p)))
+            (row_items t).
+Definition cols_keep (must may : nat -> bool) (p t : gtab) : option (list bool) :=
+  find_keep (item_eqb variant_eqb)
+            (combine (col_items p) (map (fun j => (must j, may j)) (seq 0 (length (g_variants p)))))
+            (col_items t).
+
 (* rows discarded: exactly the rows with an offender (must => gone, not may => kept);
-   survivors identified by their (distinct) sample IDs keep order, values, ancestry *)
+   the survivors keep order, sample IDs, values, ancestry rows *)
 Definition rows_discard_ok (must may : cell -> bool) (p t : gtab) : bool :=
-  let keep := map (fun s => memZ s (g_samples t)) (g_samples p) in
-  same_but_rows keep p t
-  && forallb2 (fun k row => (negb (existsb must row) || negb k) && (existsb may row || k))
-              keep (g_rows p).
+  match rows_keep must may p t with
+  | Some keep =>
+      same_but_rows keep p t
+      && forallb2 (fun k row => (negb (existsb must row) || negb k) && (existsb may row || k))
+                  keep (g_rows p)
+  | None => false
+  end.
 
 Definition cols_discard_ok (must may : nat -> bool) (p t : gtab) : bool :=
-  let keep := map (fun x => memZ (vid x) (map vid (g_variants t))) (g_variants p) in
-  same_but_cols keep p t
-  && forallb2 (fun k j => (negb (must j) || negb k) && (may j || k))
-              keep (seq 0 (length (g_variants p))).
+  match cols_keep must may p t with
+  | Some keep =>
+      same_but_cols keep p t
+      && forallb2 (fun k j => (negb (must j) || negb k) && (may j || k))
+                  keep (seq 0 (length (g_variants p)))
+  | None => false
+  end.
 
 Definition no_cell (f : cell -> bool) (t : gtab) : bool :=
   negb (existsb (existsb f) (g_rows t)).
@@ -191,16 +257,13 @@ Definition close (a : option Q) (b : Q) : bool :=
   | None => false
   end.
 
-Definition ids_distinct (t : gtab) : bool :=
-  nodupZ (g_samples t) && nodupZ (map vid (g_variants t)).
-
 (* one function per check (no IEEE doubles inside: the threshold arrives as its exact value) *)
 
 Definition holds_missing (anc : bool) (p : gtab) (d : bool) (o : qobs) : bool :=
   match o with
   | ORaise (Some s) (Some v) t =>
       negb d && gtab_eqb t p
-      && match named_cell p s v with Some x => miss_may x | None => false end
+      && named_sat miss_may p s v
   | ORet t _ =>
       if d then rows_discard_ok (miss_must anc) miss_may p t
       else no_cell (miss_must anc) p && gtab_eqb t p
@@ -211,7 +274,7 @@ Definition holds_biallelic (p : gtab) (d : bool) (o : qobs) : bool :=
   match o with
   | ORaise (Some s) (Some v) t =>
       negb d && gtab_eqb t p
-      && match named_cell p s v with Some x => multi_may x | None => false end
+      && named_sat multi_may p s v
   | ORet t _ =>
       if d then
         cols_discard_ok (col_exists multi_must (g_rows p)) (col_exists multi_may (g_rows p))
@@ -224,7 +287,7 @@ Definition holds_phase (p : gtab) (o : qobs) : bool :=
   match o with
   | ORaise (Some s) (Some v) t =>
       (3 <=? g_planes p) && gtab_eqb t p
-      && match named_cell p s v with Some x => unph_may x | None => false end
+      && named_sat unph_may p s v
   | ORet t _ =>
       if g_planes p <? 3 then gtab_eqb t p
       else no_cell unph_must p && gtab_eqb t (strip_phase p)
@@ -255,14 +318,18 @@ Definition holds_maf (p : gtab) (thr : option (option Q)) (d w : bool) (o : qobs
       match o with
       | ORet t mf =>
           if d then
-            let keep := map (fun x => memZ (vid x) (map vid (g_variants t))) (g_variants p) in
-            cols_discard_ok must may p t && forallb2 close mf (filter_mask keep mq)
+            cols_discard_ok must may p t
+            && match cols_keep must may p t with
+               | Some keep => forallb2 close mf (filter_mask keep mq)
+               | None => false
+               end
           else
             (w || negb (existsb must (seq 0 (length mq))))
             && gtab_eqb t p && forallb2 close mf mq
       | ORaise None (Some v) t =>
           negb d && negb w && gtab_eqb t p
-          && match posZ v (map vid (g_variants p)) with Some j => may j | None => false end
+          && existsb (fun j => (vid (nth j (g_variants p) dv) =? v) && may j)
+                     (seq 0 (length (g_variants p)))
       | _ => false
       end
   | _, _ => false
@@ -272,7 +339,6 @@ Definition holds_step (anc : bool) (p : gtab) (op : qop) (o : qobs) : bool :=
   match o with
   | OOther k => k =? E_Unobserved
   | _ =>
-    negb (ids_distinct p) ||
     match op with
     | OpMissing d => holds_missing anc p d o
     | OpBiallelic d => holds_biallelic p d o
@@ -319,10 +385,7 @@ Definition holds_load (k : lcase) : bool :=
       no_cell (miss_must (l_anc k)) raw && no_cell multi_must raw && no_cell unph_must raw
       && gtab_eqb t (strip_phase (cast_bool raw))
   | ORaise (Some s) (Some v) _ =>
-      match named_cell raw s v with
-      | Some x => miss_may x || multi_may x || unph_may x
-      | None => false
-      end
+      named_sat (fun x => miss_may x || multi_may x || unph_may x) raw s v
   | _ => false
   end.
 
@@ -333,3 +396,79 @@ Definition check_load (k : lcase) : bool * bool :=
    | _, _ => false
    end,
    holds_load k).
+
+(* ---- histories on one object that read()s real files ------------------------------------
+   The harness writes the files (VCF.gz with GT or GT:POP, PGEN+PVAR+PSAM) from the tables
+   [f_files] and then, on ONE object, calls read() (of any of the files, all of it or the
+   samples / variants asked for) and the checks in any order, reading again in between.
+   After every call it records the outcome and the object's contents.
+   [agree]: the model (C13_Model.hrun: read = the file's table, checks as before) predicts
+            every outcome and every content.
+   [holds]: every check's verdict and effect is the property's clause for the data that is
+            loaded at that moment: after read() that is the content of the file just read (as
+            the harness wrote it), whatever was read or checked before on the same object;
+            after a check it is what the check left. *)
+
+Inductive fop :=
+| FRead (file : nat) (ss vs : option (list Z))   (* read(samples=ss, variants=vs) of file #file *)
+| FCheck (op : qop).
+
+Record fcase := mkf {
+  f_anc : bool;
+  f_files : list gtab;
+  f_steps : list (fop * qobs)
+}.
+
+Definition no_table : gtab := mkg [] [] [] 3 None.
+Definition file_read (files : list gtab) (k : nat) (ss vs : option (list Z)) : gtab :=
+  read_sel ss vs (nth k files no_table).
+
+Definition model_fstep (anc : bool) (files : list gtab) (t : gtab) (op : fop)
+  : qout * list (option Q) :=
+  match op with
+  | FRead k ss vs => (QOk (file_read files k ss vs), [])
+  | FCheck q => model_step false anc t q
+  end.
+
+Fixpoint agree_frun (anc : bool) (files : list gtab) (t : gtab) (steps : list (fop * qobs)) : bool :=
+  match steps with
+  | [] => true
+  | (op, o) :: r =>
+      let m := model_fstep anc files t op in
+      agree_step t m o
+      && agree_frun anc files (match fst m with QOk t' => t' | QRaise _ _ => t end) r
+  end.
+
+Fixpoint model_frun (anc : bool) (files : list gtab) (t : gtab) (ops : list fop)
+  : list (qout * list (option Q)) :=
+  match ops with
+  | [] => []
+  | op :: r =>
+      let m := model_fstep anc files t op in
+      m :: model_frun anc files (match fst m with QOk t' => t' | QRaise _ _ => t end) r
+  end.
+
+(* p = the data currently loaded *)
+Fixpoint holds_frun (anc : bool) (files : list gtab) (p : gtab) (steps : list (fop * qobs)) : bool :=
+  match steps with
+  | [] => true
+  | (FRead k ss vs, o) :: r =>
+      match o with
+      | OOther _ => true     (* read() itself failed: nothing is loaded, no check follows *)
+      | _ => holds_frun anc files (file_read files k ss vs) r
+      end
+  | (FCheck q, o) :: r =>
+      holds_step anc p q o
+      && match o with
+         | ORet t _ => holds_frun anc files t r
+         | ORaise _ _ t => holds_frun anc files t r
+         | OOther _ => true
+         end
+  end.
+
+Definition model_files (k : fcase) :=
+  model_frun (f_anc k) (f_files k) no_table (map fst (f_steps k)).
+
+Definition check_files (k : fcase) : bool * bool :=
+  (agree_frun (f_anc k) (f_files k) no_table (f_steps k),
+   holds_frun (f_anc k) (f_files k) no_table (f_steps k)).
